@@ -64,8 +64,12 @@ class Compiler:
                 if len(placeholders) != len(parameters):
                     raise ProgrammingError(
                         f'the query has {len(placeholders)} placeholders but {len(parameters)} parameters were passed')
-                for i, placeholder in enumerate(sorted(placeholders, key=lambda node: node.parseinfo.pos)):
-                    placeholder.name = i
+                # Positional placeholders are bound in textual order. Do not
+                # record the position in the AST: the parsed statement can be
+                # executed again, possibly with different parameters.
+                self.positions = {
+                    id(placeholder): i
+                    for i, placeholder in enumerate(sorted(placeholders, key=lambda node: node.parseinfo.pos))}
             else:
                 raise ProgrammingError('positional and named parameters cannot be mixed')
 
@@ -625,6 +629,8 @@ class Compiler:
 
     @_compile.register
     def _placeholder(self, node: ast.Placeholder):
+        if not node.name:
+            return EvalConstant(self.parameters[self.positions[id(node)]])
         return EvalConstant(self.parameters[node.name])
 
     @_compile.register
